@@ -104,25 +104,38 @@ Fixpoint assoc {A} (k : str) (l : list (str * A)) : option A :=
   | (k', v) :: rest => if list_eq_dec N.eq_dec k k' then Some v else assoc k rest
   end.
 
+(* a defined variable is substituted whichever sigil the template spells it with (fix 648fad9):
+   `$A` falls back to the multiple capture A, `$$$A` to the single capture A and then to the transformed A *)
+Definition single_range (env : tenv) (name : str) : option (nat * nat) := assoc name (e_single env).
+Definition multi_range (env : tenv) (name : str) : option (nat * nat) :=
+  match assoc name (e_multi env) with
+  | Some ((s0, e0) :: more) => Some (s0, snd (last more (s0, e0)))
+  | _ => None
+  end.
+Definition transformed_text (env : tenv) (v : tvar) : option str :=
+  match assoc (tv_name v) (e_trans env) with
+  | None => None
+  | Some src => Some (indent_lines (tv_indent v) (MultiLine src 0))
+  end.
+Definition cut_range (doc : str) (v : tvar) (r : nat * nat) : str :=
+  indent_lines (tv_indent v) (extract_with_deindent doc (fst r) (snd r)).
+
 Definition maybe_get_var (doc : str) (env : tenv) (v : tvar) : option str :=
   match tv_kind v with
-  | KTransformed =>
-      match assoc (tv_name v) (e_trans env) with
-      | None => None
-      | Some src => Some (indent_lines (tv_indent v) (MultiLine src 0))
-      end
+  | KTransformed => transformed_text env v
   | KSingle =>
-      match assoc (tv_name v) (e_single env) with
-      | None => None
-      | Some (s, e) => Some (indent_lines (tv_indent v) (extract_with_deindent doc s e))
+      match single_range env (tv_name v) with
+      | Some r => Some (cut_range doc v r)
+      | None => option_map (cut_range doc v) (multi_range env (tv_name v))
       end
   | KMultiple =>
-      match assoc (tv_name v) (e_multi env) with
-      | None => None
-      | Some [] => None
-      | Some ((s0, e0) :: more) =>
-          let e := snd (last more (s0, e0)) in
-          Some (indent_lines (tv_indent v) (extract_with_deindent doc s0 e))
+      match multi_range env (tv_name v) with
+      | Some r => Some (cut_range doc v r)
+      | None =>
+          match single_range env (tv_name v) with
+          | Some r => Some (cut_range doc v r)
+          | None => transformed_text env v
+          end
       end
   end.
 
